@@ -274,7 +274,10 @@ def endMachineCycle (arms : List Arm) (m : Machine) : Option Machine :=
 
 /-- what `ppu.EndMachineCycle` does to the OAM unit when the LCD is on: `EnterMode2/ExitMode2` at the mode
     switch, and the `PPURead` calls of `checkOverlappingSprites` (mode 2) leave `ppuLastAccess` at the
-    second sprite of the cycle (`0xfe00 + uint16(uint8(lx*2+1)*4)`) -/
+    second sprite of the cycle (`0xfe00 + uint16(uint8(lx*2+1)*4)`).  NOT modelled: the `PPURead` calls of
+    the pixel renderer in mode 3 (C15's model); they move `ppuLastAccess` while the corruption window is
+    closed, which a machine that calls `oam.Corrupt()` right after every CPU access (as the CPU does) never
+    observes – the `bus` mode keeps to that schedule in its LCD-on runs. -/
 def oamAfterTick (p : Lcd.Ppu) (o : Oam.Oam) : Oam.Oam :=
   let c := Lcd.swCorrupt p.mode p.ticks o.corrupt
   if Lcd.nextMode p.mode p.ticks = 2 then
